@@ -71,7 +71,7 @@ def one_case(rng, k):
             values.append(a)
             tk = rng.choice(["path", "path", "group", "existing-equal", "existing-coarser", "existing-finer", "existing-coprime", "sharded",
                              "existing-other-shape",
-                             "region", "region", "region-ragged", "region-misaligned", "region-wrongshape"])
+                             "region", "region", "region-ragged", "region-misaligned", "region-wrongshape", "region-stepped"])
             if narrow:
                 tk = "region-narrow"
             if api == "to_zarr" and tk == "group":
@@ -113,6 +113,10 @@ def one_case(rng, k):
                 elif tk == "region-ragged":
                     tshape = (r0 + r, c0 + c)
                     region = (slice(r0, r0 + r), slice(c0, c0 + c))
+                elif tk == "region-stepped":
+                    # every second row: not writable chunk-wise; it may be declined (cleanly) or handled, never half-done
+                    tshape = (r0 + 2 * r, c0 + c)
+                    region = (slice(r0, r0 + 2 * r, 2), slice(c0, c0 + c))
                 elif tk == "region-misaligned":
                     tch = (max(2, tch[0]), tch[1])
                     r0 = tch[0] * rng.randint(0, 2) + 1
@@ -127,6 +131,11 @@ def one_case(rng, k):
                     # a region whose end is not chunk-aligned must end at the target's edge, otherwise it is unsafe
                     if any(sl.stop % ch != 0 and sl.stop != n for sl, ch, n in zip(region, tch, tshape)):
                         shouldreject = True
+                if rng.random() < 0.35:
+                    # the same region spelled with negative / open-ended bounds (NumPy and Zarr semantics)
+                    region = tuple(slice(sl.start - n if (sl.start > 0 and rng.random() < 0.7) else (None if sl.start == 0 and rng.random() < 0.5 else sl.start),
+                                         None if (sl.stop == n and rng.random() < 0.6) else (sl.stop - n if sl.stop < n and rng.random() < 0.7 else sl.stop),
+                                         sl.step) for sl, n in zip(region, tshape))
                 tgt = zarr.create_array(path, shape=tshape, chunks=tch, dtype=a.dtype, fill_value=0)
                 tgt[...] = SENT
                 full = np.full(tshape, SENT, dtype=a.dtype)
